@@ -56,6 +56,27 @@ CLAIMS = {
              "NEGATIVE_SIZE, BAD_VERSION, DEPTH_LIMIT; the type ids of the predeclared errors come from symbolically executing the package initialiser.",
         note="Stream reader error wrapping not yet covered. Objects created by the package initialiser are assumed not to be mutated afterwards. " + TRUST,
         design="5 C17"),
+    "C18": dict(
+        text="Proof (loop-free, complete for all type ids, messages and prefixes): PrependError preserves the exception kind (transport / protocol / application; a foreign value exposing TypeId becomes an "
+             "application exception; anything else stays a plain error) and the type id, and the new message is the prefix followed by the original text; NewProtocolExceptionWithErr is the identity "
+             "on protocol exceptions and otherwise wraps with UNKNOWN_PROTOCOL_EXCEPTION, Msg == err.Error(), Unwrap() == err; ProtocolException.Is matches on (TypeId, Error) equality and otherwise "
+             "exactly when errors.Is(cause, target) does.",
+        note="Error()/TypeId() of foreign error values are modelled as pure ghost attributes ($errtext, $typeid); errors.Is is an uninterpreted deterministic function; the default text of an "
+             "ApplicationException with an empty message (map lookup / Sprintf) is not specified, so the message clause for the three Thrift kinds is claimed for non-empty messages. "
+             "PrependError requires a non-nil dynamic value (a typed nil pointer in the interface panics in the real code too). " + TRUST,
+        design="5 C18"),
+    "C19": dict(
+        text="Proof: NewBufferTransport returns the very object it was given (same identity, first-field layout), RemainingBytes equals the buffer's Len(), Close resets it; NewDefaultTransport dispatches on "
+             "*bytes.Buffer; defaultTransport.RemainingBytes is the wrapped object's positive ReadableLen or max uint64; CheckTStruct/ThriftRead/ThriftWrite return the specific not-registered error "
+             "when unset and otherwise exactly the result of the registered callback applied to the given arguments.",
+        note="bytes.Buffer itself is a dependency (Len/Reset have trusted ghost contracts): histories over the buffer are stdlib behaviour; what is proved is that the bridge adds nothing in between. "
+             "Calls through function values are modelled as deterministic functions of their arguments. " + TRUST,
+        design="5 C19"),
+    "C20": dict(
+        text="Proof: BinaryToString / StringToBinary (unsafex_go121.go, the file built by the installed toolchain) keep length and content for every input including nil and empty, share the "
+             "argument's memory (same region and offset) and StringToBinary returns cap == len.",
+        note="Follows from the built-in semantics of unsafe.String/StringData/Slice/SliceData in the verifier, which are trusted; unsafex_go100.go is excluded by its build tag and not verified. " + TRUST,
+        design="5 C20"),
 }
 for c in CLAIMS.values():
     c.setdefault("technique", TECH)
